@@ -659,6 +659,7 @@ class StmtMixin(object):
         res.globals_a = self.globals_a
         res.notes = list(self.notes)
         res.pins = dict(self.pins)
+        res.locals = dict(self.top_locals)
         res.node = m
         return res
 
